@@ -16,9 +16,18 @@ Correspondence / oracle, per generated message:
     `NestedJsonRenderer().render(msg)`: the value nodes in document order are the flat items, each
     linked value re-appears (virtual) under exactly its owner, a 224255 value carries its 008023, a 225255
     value its 008024, an associated field its 031021 and sits on the element that follows it;
+  * marker values (223255 / 224255 / 225255 / 232255), every subset: the marker descriptor must carry the id, width,
+    scale and reference of the item its link names (225255: width + 1, reference -2^width);
   * difference statistics: when the template ends with 225255 markers the last fields of the (uncompressed,
     last) subset are cut out of the encoded bits with widths nbits(owner)+1 and the decoded value must be
     (raw - 2^nbits(owner)) / 10^scale(owner).
+
+Streams: (a) exhaustive bit patterns on one base, (b) random chains on the base families, (c) `varying-structure`:
+uncompressed messages of 2-4 subsets whose delayed replications in front of the operator have different factors per
+subset -- chosen so that the subsets record the SAME number of items (the operator sits at the same flat position,
+different elements precede it) -- with per-subset bit-maps and, for delayed bit-map replications, per-subset bit-map
+lengths.  Coverage of that class is measured from the implementation (hook on build_bitmapped_descriptors, counters
+`xsub-*` in the evidence) and never compared.
 """
 import json
 import os
@@ -36,14 +45,25 @@ META = dict(
          'exactly the back-referenced elements whose bit is 0, in order, and a bit-map whose length differs from the back '
          'references is refused; the back references are the last N plain-element items below the operator, in order with '
          'their positions; 225255 is coded with width+1 and reference -2^width; an associated field is recorded directly in '
-         'front of its owner.  The equality of the recorded links with the after-the-fact specification Spec.links (235000 / '
-         '236000 / 237000 / 237255 included) is NOT proved for all inputs: it is checked by correspondence — Spec.links is '
-         'evaluated by the compiled model on the implementation\'s own item list for every generated case (all 0/1 patterns '
-         'of bit-maps of length 1..8 per base template, random lengths up to 40, chains of 2-3 operators) and compared with '
-         'the implementation\'s bitmap_links and with the model walk; the hierarchical view is checked against the same links.',
-    technique='Lean 4 theorems (induction over the descriptor list / case analysis of the walk) + executable specification '
-              'evaluated on the implementation\'s output + checked model/implementation correspondence',
-    note='C07_links_eq_spec is stated (comment block in Props/C07.lean) but only its building blocks are proved; see notes/C07.md.',
+         'front of its owner.  For the WHOLE walk of any template (C07_walk_invariant, C07_links_sound_*_partial): every link '
+         'points from a value to an earlier item that is a plain element, and every entry of the back-reference / selection '
+         'registers names an item that is that element; for uncompressed messages the links (labels, values) of a subset are '
+         'those of decoding or encoding that subset alone, whatever the other subsets hold '
+         '(C07_links_independent_of_other_subsets, C07_links_of_subset_alone, C07_encoder_links_independent_of_other_subsets), '
+         'so that links = Spec.links for single walks lifts to messages (C07_links_eq_spec_lifts_to_message).  The equality of '
+         'the recorded links with the after-the-fact specification Spec.links (235000 / 236000 / 237000 / 237255 included) is '
+         'NOT proved for all inputs: it is checked by correspondence — Spec.links is evaluated by the compiled model on the '
+         'implementation\'s own item list of EVERY subset of every generated case (all 0/1 patterns of bit-maps of length 1..8 '
+         'per base template, random lengths up to 40, chains of 1-3 operators, and 2-4 uncompressed subsets whose delayed '
+         'replications in front of the operator differ but record the same number of items, with per-subset bit-maps and '
+         'bit-map lengths) and compared with the implementation\'s bitmap_links and with the model walk; every marker value '
+         'of every subset must carry the element, width, scale and reference of the item its link names; the hierarchical '
+         'view is checked against the same links.',
+    technique='Lean 4 theorems (induction over the descriptor list / case analysis of the walk / an invariant carried through '
+              'the mutual recursion of the walk) + executable specification evaluated on the implementation\'s output + '
+              'checked model/implementation correspondence',
+    note='C07_links_eq_spec is stated (comment block in Props/C07.lean) but only its building blocks, its soundness half '
+         '(Props/C07Walk.lean) and its reduction from messages to single walks (Props/C07Subsets.lean) are proved; see notes/C07.md.',
 )
 
 KINDS = (222, 223, 224, 225, 232)
@@ -54,6 +74,9 @@ ORACLE_ONLY = bool(os.environ.get('VERIF_C07_ORACLE_ONLY'))
 # --------------------------------------------------------------------------------------------------
 # instrumentation: the times at which 235000 was processed (it records no item)
 _CANCELS = []
+# coverage only (never compared): every backward scan for back referenced descriptors as
+# (subset, boundary, bits, back references as (index, label))
+_BUILDS = []
 
 
 def install_hooks():
@@ -66,7 +89,43 @@ def install_hooks():
         _CANCELS.append((self.idx_subset, len(self.decoded_descriptors)))
         return orig(self)
     coder.CoderState.cancel_all_back_references = wrapped
+    orig_build = coder.CoderState.build_bitmapped_descriptors
+
+    def wrapped_build(self, bitmap):
+        scan = not self.back_referenced_descriptors     # the backward scan is done by this call
+        try:
+            return orig_build(self, bitmap)
+        finally:
+            try:
+                if scan:
+                    _BUILDS.append((self.idx_subset, self.back_reference_boundary, tuple(bitmap),
+                                tuple((i, str(d)) for i, d in (self.back_referenced_descriptors or []))))
+            except Exception:  # noqa
+                pass
+    coder.CoderState.build_bitmapped_descriptors = wrapped_build
     coder.CoderState._verif_c07 = True
+
+
+def cross_subset_class(builds):
+    """coverage classification of one uncompressed message from the recorded builds:
+    -> (same, differ, sensitive): some two subsets build their back references with the same (boundary, number
+    of bits) [same]; ... and the referenced (index, element) lists differ [differ]; ... and the later subset
+    has a zero bit on a position where they differ [sensitive: a value of that subset is linked to / decoded
+    as a different element than anything remembered from the earlier subset would give]"""
+    same = differ = sensitive = False
+    seen = {}
+    for sub, boundary, bits, refs in builds:
+        key = (boundary, len(bits))
+        for sub0, refs0 in seen.get(key, []):
+            if sub0 == sub:
+                continue
+            same = True
+            if refs0 != refs:
+                differ = True
+                if any(b == 0 and (k >= len(refs0) or refs0[k] != r) for k, (b, r) in enumerate(zip(bits, refs))):
+                    sensitive = True
+        seen.setdefault(key, []).append((sub, refs))
+    return same, differ, sensitive
 
 
 # --------------------------------------------------------------------------------------------------
@@ -78,6 +137,7 @@ class Gen(object):
         tg = self.tg
         self.q33 = tg.class33
         self.num_small = [i for i in tg.numeric if tg.b[i][4] <= 16]
+        self.exotic = False
 
     # -- base templates -----------------------------------------------------------------------------
     def base(self, family):
@@ -115,10 +175,159 @@ class Gen(object):
             return [[100000 + len(body) * 1000 + rng.randint(8, 12)] + body] + [ep() for _ in range(rng.randint(0, 3))]
         raise AssertionError(family)
 
+    # -- bases whose STRUCTURE differs between the subsets of an uncompressed message --------------------
+    # A base is a list of top-level nodes:
+    #   ('e', id)                      plain element: one item, a candidate for back reference
+    #   ('x', ids, tags)               a construct that records the items `tags` per walk (an element id = a plain
+    #                                  item of that element, a string starting with 'x' = an item that is no candidate:
+    #                                  205YYY character field, 206YYY skipped descriptor, associated field)
+    #   ('d', factor id, [nodes])      delayed replication;   ('f', count, [nodes])   fixed replication
+    def vary_body_item(self, depth):
+        rng, tg = self.rng, self.tg
+        r = rng.random()
+        if r < 0.42:
+            return ('e', tg.element_plain()[0])
+        if r < 0.54:
+            return ('x', [205000 + rng.randint(1, 4)], ['x205'])
+        if r < 0.60 and self.exotic:
+            return ('x', [206000 + rng.randint(1, 24), rng.choice([63255, 48001, 63001])], ['xS'])
+        if r < 0.68:
+            els = [tg.element_plain()[0] for _ in range(rng.randint(1, 2))]
+            tags = [31021]
+            for e in els:
+                tags += ['xA', e]
+            return ('x', [204000 + rng.randint(1, 6), 31021] + els + [204000], tags)
+        if r < 0.73 and self.exotic:
+            els = [tg.element_plain()[0] for _ in range(rng.randint(1, 3))]
+            return ('x', [221000 + len(els)] + els, [e for e in els if 1 <= e // 1000 <= 9 or e // 1000 == 31])
+        if r < 0.78:
+            e = rng.choice(self.num_small)
+            return ('x', rng.choice([[201000 + rng.choice([126, 129, 130]), e, 201000], [202000 + rng.choice([127, 129]), e, 202000]]), [e])
+        if depth < 2 and r < 0.90:
+            return self.vary_rep(depth + 1, delayed=True)
+        if depth < 2:
+            return self.vary_rep(depth + 1, delayed=False)
+        return ('e', tg.element_plain()[0])
+
+    def vary_rep(self, depth, delayed):
+        rng = self.rng
+        kids = [self.vary_body_item(depth) for _ in range(rng.choice([1, 1, 2, 2, 3]))]
+        if not delayed and not any(self.has_delayed(k) for k in kids):
+            kids.append(self.vary_rep(depth + 1, delayed=True) if depth < 3 else ('e', self.tg.element_plain()[0]))
+        if delayed:
+            return ('d', rng.choice([31001, 31001, 31001, 31000]), kids)
+        return ('f', rng.randint(2, 3), kids)
+
+    def has_delayed(self, node):
+        return node[0] == 'd' or (node[0] == 'f' and any(self.has_delayed(k) for k in node[2]))
+
+    def node_ids(self, node):
+        if node[0] == 'e':
+            return [node[1]]
+        if node[0] == 'x':
+            return list(node[1])
+        inner = [i for k in node[2] for i in self.node_ids(k)]
+        if len(inner) > 63:
+            raise ValueError('replication too long')
+        if node[0] == 'd':
+            return [100000 + len(inner) * 1000, node[1]] + inner
+        return [100000 + len(inner) * 1000 + node[1]] + inner
+
+    def expand(self, nodes, factors, hi):
+        """one walk of `nodes` with freshly drawn replication factors (appended to `factors` as (id, value) in the
+        order the walk meets them) -> the tags of the recorded items"""
+        rng = self.rng
+        out = []
+        for nd in nodes:
+            if nd[0] == 'e':
+                out.append(nd[1])
+            elif nd[0] == 'x':
+                out.extend(nd[2])
+            elif nd[0] == 'f':
+                for _ in range(nd[1]):
+                    out.extend(self.expand(nd[2], factors, hi))
+            else:
+                c = rng.randint(0, 1) if nd[1] == 31000 else rng.randint(0, hi)
+                factors.append((nd[1], c))
+                out.append(nd[1])
+                for _ in range(c):
+                    out.extend(self.expand(nd[2], factors, hi))
+        return out
+
+    def vary(self, n, comp):
+        """-> (proto for make_cases, description).  Two to four replication blocks with delayed factors, fixed items
+        between them; the factors of every subset are imposed.  Preferred choice: factors that differ between the
+        subsets but give the same number of recorded items, so that whatever follows the base (the bit-map
+        operator) sits at the same flat position in subsets of different structure."""
+        rng, tg = self.rng, self.tg
+        # 206YYY / 221YYY put a template outside Spec.WFbitmap (harmless in front of the first operator): one case in four
+        self.exotic = rng.random() < 0.25
+        for _ in range(50):
+            nodes = [('e', tg.element_plain()[0]) for _ in range(rng.randint(0, 2))]
+            nblocks = rng.choice([1, 2, 2, 2, 3, 3, 4])
+            for b in range(nblocks):
+                nodes.append(self.vary_rep(1, delayed=rng.random() < 0.8))
+                if rng.random() < 0.35:
+                    r = rng.random()
+                    if r < 0.5:
+                        nodes.append(('e', tg.element_plain()[0]))
+                    elif r < 0.7:
+                        nodes.append(('x', [205000 + rng.randint(1, 3)], ['x205']))
+                    elif r < 0.85:
+                        nodes.append(('x', [rng.choice(tg.small_seq)], None))       # same items in every subset
+                    elif self.exotic:
+                        nodes.append(('x', tg.operator_construct(0), None))
+            for _ in range(rng.choice([0, 0, 1, 1, 2])):
+                nodes.append(('e', tg.element_plain()[0]))
+            try:
+                parts = [self.node_ids(nd) for nd in nodes]
+            except ValueError:
+                continue
+            break
+        else:
+            raise core.MachineryError('no varying base')
+        reps = [nd for nd in nodes if nd[0] in 'df']
+        # the items of the constructs with unknown tags are the same in every subset: a place holder is enough
+        known = [nd if (nd[0] != 'x' or nd[2] is not None) else ('x', nd[1], ['x?%d' % k]) for k, nd in enumerate(nodes)]
+        hi = rng.choice([2, 3, 3, 4])
+        mode = 'same-structure' if comp else rng.choice(['compensating'] * 8 + ['free', 'free'])
+        draws = []
+        for _ in range(1 if comp else 80):
+            fs = []
+            tags = self.expand(known, fs, hi)
+            draws.append((tags, fs))
+        chosen = None
+        if mode == 'compensating':
+            groups = {}
+            for tags, fs in draws:
+                g = groups.setdefault(len(tags), [])
+                if all(tags != t for t, _ in g):
+                    g.append((tags, fs))
+            multi = [g for g in groups.values() if len(g) >= 2]
+            if multi:
+                g = rng.choice(multi)
+                rng.shuffle(g)
+                chosen = [g[k % len(g)] for k in range(n)]
+                if len(g) < n:
+                    rng.shuffle(chosen)
+            else:
+                mode = 'free'
+        if chosen is None:
+            chosen = [draws[0]] if comp else [rng.choice(draws) for _ in range(n)]
+        bf = {31001: [], 31000: []}
+        for tags, fs in chosen:
+            for fid, v in fs:
+                bf[fid].append(v)
+        meta = {'mode': mode, 'blocks': len(reps), 'same_length': len(set(len(t) for t, _ in chosen)) == 1,
+                'distinct_structures': len(set(tuple(t) for t, _ in chosen))}
+        proto = {'parts': parts, 'n': n, 'comp': comp, 'rnd': C.rnd_bits(rng, 9000), 'bf': bf}
+        return proto, meta
+
     # -- one chain of operators -----------------------------------------------------------------------
-    def chain(self, P0, n, comp, steps=None, nmax=8, first_bits=None, first_kind=None, simple=False):
+    def chain(self, P0, n, comp, steps=None, nmax=8, first_bits=None, first_kind=None, simple=False, vary_n=False):
         """-> (ids of the construct, forced dict id -> per-subset lists, description)
-        P0 = number of plain items of the base (minimum over subsets)"""
+        P0 = number of plain items of the base (minimum over subsets)
+        vary_n: uncompressed subsets may define bit-maps of different lengths (delayed replication of 031031)"""
         rng = self.rng
         nsub_f = 1 if comp else n
         ids = []
@@ -150,12 +359,18 @@ class Gen(object):
                 if established is None:
                     lim = min(P0 + emitted, nmax)
                     N = len(first_bits) if (k == 0 and first_bits is not None) else rng.randint(1, max(1, lim))
+                    Ns = [N] * nsub_f
+                    if vary_n and nsub_f > 1 and not (k == 0 and first_bits is not None) and rng.random() < 0.6:
+                        Ns = [N] + [rng.randint(1, max(1, lim)) for _ in range(nsub_f - 1)]
                 else:
-                    N = established
+                    Ns = established
+                    N = Ns[0]
                 bits0 = list(first_bits) if (k == 0 and first_bits is not None) else [rng.randint(0, 1) if rng.random() < 0.8 else 0 for _ in range(N)]
-                cur = {'N': N, 'bits': [bits0] + [None] * (nsub_f - 1), 'reuse': reuse, 'rigid': False, 'steps': []}
-                established = N
+                cur = {'N': N, 'Ns': Ns, 'bits': [bits0] + [None] * (nsub_f - 1), 'reuse': reuse, 'rigid': False, 'steps': []}
+                established = Ns
                 bitrep = 'fixed' if (N > 255 or rng.random() < 0.5) else 'delayed'
+                if len(set(Ns)) > 1:
+                    bitrep = 'delayed'          # the length is data: only a delayed replication can differ per subset
                 if N > 255:
                     raise AssertionError
                 if bitrep == 'fixed':
@@ -164,13 +379,15 @@ class Gen(object):
                     ids += [101000, 31002, 31031]
                     emitted += 1
                 d.update(mode='define', N=N, reuse=reuse, bitrep=bitrep)
+                if len(set(Ns)) > 1:
+                    d['lengths'] = list(Ns)
                 cur['bitrep'] = bitrep
                 cur['slot'] = [len(f31031[s]) for s in range(nsub_f)]
                 for s in range(nsub_f):
                     if bitrep == 'delayed':
-                        f31002[s].append(N)
+                        f31002[s].append(Ns[s])
                     f31031[s].append(None)      # placeholder, filled below
-                emitted += N
+                emitted += min(Ns)
             zeros0 = cur['bits'][0].count(0)
             if kind == 224:
                 ids.append(8023)
@@ -190,9 +407,13 @@ class Gen(object):
                 # would still hold (so that only the owners tell a restart from a continuation)
                 ncons = rng.randint(1, cur['left'])
                 early = ncons < zeros0
+            if zeros0 > min(cur['Ns']):
+                # lengths differ per subset and some subset cannot hold this many zero bits: the number of
+                # consumers has to be data as well
+                ncons, early = zeros0, False
             if ncons == 0 and not early:
                 mode = 'none'
-            elif r < 0.4 and ncons == zeros0:
+            elif (r < 0.4 and ncons == zeros0) or zeros0 > min(cur['Ns']):
                 mode = 'delayed'
             elif r < 0.75 or ncons > 4:
                 mode = 'fixed'
@@ -239,7 +460,16 @@ class Gen(object):
             seen.append(cur)
             for s in range(1, nsub_f):
                 b = list(cur['bits'][0])
-                if cur['rigid']:
+                if cur['Ns'][s] != len(b):
+                    z = b.count(0)
+                    if cur['rigid']:
+                        if z > cur['Ns'][s]:
+                            raise AssertionError('fixed number of consumers with too short a bit-map')
+                        b = [0] * z + [1] * (cur['Ns'][s] - z)
+                        rng.shuffle(b)
+                    else:
+                        b = [rng.randint(0, 1) for _ in range(cur['Ns'][s])]
+                elif cur['rigid']:
                     rng.shuffle(b)
                 else:
                     b = [rng.randint(0, 1) for _ in b]
@@ -259,7 +489,7 @@ class Gen(object):
 
 
 class C7Case(P.Case):
-    __slots__ = ('info', 'family', 'ends225', 'base_len', 'stream', 'rnd', 'P0', 'assoc_open')
+    __slots__ = ('info', 'family', 'ends225', 'base_len', 'stream', 'rnd', 'P0', 'assoc_open', 'vmeta')
 
 
 FAMILIES = ('plain', 'seq', 'nested', 'delayed', 'assoc', 'ops', 'long', 'assoc-ops')
@@ -322,7 +552,7 @@ def make_cases(drv, treq, rng, plans):
         pl = p['plan']
         if not p['P0']:
             continue
-        kw = {x: pl[x] for x in ('steps', 'nmax', 'first_bits', 'first_kind', 'simple') if x in pl}
+        kw = {x: pl[x] for x in ('steps', 'nmax', 'first_bits', 'first_kind', 'simple', 'vary_n') if x in pl}
         if 'first_bits' in kw and len(kw['first_bits']) > p['P0']:
             continue
         ids, forced, info, ends225 = g.chain(p['P0'], p['n'], p['comp'], **kw)
@@ -338,6 +568,7 @@ def make_cases(drv, treq, rng, plans):
         c = C7Case(parts, [[kk, v] for kk, v in sorted(f.items())], p['n'], p['comp'], pl.get('edition', 4), k)
         c.info, c.family, c.ends225, c.base_len, c.stream, c.rnd, c.P0 = info, pl['family'], ends225, len(p['parts']), pl.get('stream', 'random'), p['rnd'], p['P0']
         c.assoc_open = bool(pl.get('assoc_open'))
+        c.vmeta = pl.get('vmeta')
         cases.append(c)
     # values
     reqs = [treq]
@@ -384,6 +615,7 @@ def impl_decode_full(b):
     from pybufrkit.decoder import Decoder
     install_hooks()
     del _CANCELS[:]
+    del _BUILDS[:]
     out = {}
     try:
         msg = Decoder().process(b, wire_template_data=False)
@@ -399,6 +631,7 @@ def impl_decode_full(b):
                      'elems': [(getattr(d, 'nbits', None), getattr(d, 'scale', None), getattr(d, 'refval', None), getattr(d, 'unit', None)) for d in td.decoded_descriptors_all_subsets[i]]})
     out['status'] = 'ok'
     out['subsets'] = subs
+    out['xsub'] = cross_subset_class(list(_BUILDS)) if not td.is_compressed else (False, False, False)
     out['compressed'] = bool(td.is_compressed)
     # hierarchical view
     try:
@@ -599,6 +832,8 @@ def features(c):
             f.add('237255')
         if d.get('early'):
             f.add('stops-early')
+        if d.get('lengths'):
+            f.add('bitmap-length-differs-per-subset')
         f.add('consumers-' + d['consumers'])
         if d['mode'] == 'define':
             f.add('bitrep-' + d['bitrep'])
@@ -648,6 +883,30 @@ def check_diffstats(c, impl_bits, sub, elems, links):
             return 'difference statistics of %s: field of %d bits holds %d, decoded %r, expected %r' % (d[o], w, raw, got, exp), n
         n += 1
     return None, n
+
+
+def check_markers(sub):
+    """every marker value (223255 / 224255 / 225255 / 232255) of one subset against the element its link names:
+    same element id, same scale, width and reference of the owner (225255: width + 1, reference -2^width).
+    -> description of the first discrepancy or None"""
+    d, elems = sub['d'], sub['elems']
+    owner = dict((a, o) for a, o in sub['l'])
+    for i, lab in enumerate(d):
+        if lab[0] not in 'TFDR':
+            continue
+        o = owner.get(i)
+        if o is None:
+            continue            # a missing link is reported by the comparison with Spec.links
+        if o >= len(d):
+            return 'marker value %d (%s) is linked to item %d, which does not exist' % (i, lab, o)
+        nb, sc, ref, unit = elems[o]
+        mnb, msc, mref, munit = elems[i]
+        if lab[1:] != d[o][-5:] or not d[o][0].isdigit():
+            return 'marker value %d is %s but its link names item %d (%s)' % (i, lab, o, d[o])
+        exp = (nb + 1, sc, -2 ** nb) if lab[0] == 'D' else (nb, sc, ref)
+        if (mnb, msc, mref) != exp or munit != unit:
+            return 'marker value %d (%s): width/scale/reference %s, owner %d (%s) has %s' % (i, lab, (mnb, msc, mref), o, d[o], (nb, sc, ref))
+    return None
 
 
 def as_mapping(resp):
@@ -717,6 +976,14 @@ def run_chunk(ctx, drv, treq, cases):
         ctx.count('chain-%d' % len(c.info))
         if c.note:
             ctx.count(c.note)
+        if c.vmeta:
+            ctx.count('vary:' + c.vmeta['mode'])
+            ctx.count('vary:blocks-%d' % c.vmeta['blocks'])
+            if c.vmeta['same_length'] and c.vmeta['distinct_structures'] > 1:
+                ctx.count('vary:equal-length-distinct-structures-%d' % c.vmeta['distinct_structures'])
+            for x in (205, 206, 204, 221):
+                if any(i // 1000 == x for part in c.parts[:c.base_len] for i in part):
+                    ctx.count('vary:base-has-%d' % x)
         for f in feats:
             ctx.count(f)
         w = wf.get(k, {})
@@ -729,6 +996,11 @@ def run_chunk(ctx, drv, treq, cases):
         if im['status'] != 'ok':
             ctx.count('decode-' + im['status'])
             continue
+        if not c.comp and c.n >= 2:
+            ctx.count('uncompressed-multi-subset')
+            for flag, name in zip(im['xsub'], ('xsub-same-boundary-and-length', 'xsub-different-back-references', 'xsub-zero-bit-on-difference')):
+                if flag:
+                    ctx.count(name)
         # oracle
         bad = False
         for s, sub in enumerate(im['subsets']):
@@ -745,6 +1017,17 @@ def run_chunk(ctx, drv, treq, cases):
             if not sp['recalls_ok']:
                 ctx.count('recall-not-FM94')
             ctx.count('links', len(sub['l']))
+        if bad:
+            continue
+        # marker values: element, width, scale, reference of the owner -- in every subset
+        for s, sub in enumerate(im['subsets']):
+            why = check_markers(sub)
+            if why:
+                report(ctx, c, 'links: subset %d: %s (labels %s)' % (s, why, sub['d']), b, stage='links',
+                       extra={'assoc_over': assoc_over(c), 'marker_class33': marker_class33(c, im['subsets'])})
+                bad = True
+                break
+            ctx.count('marker-values-checked', sum(1 for lab in sub['d'] if lab[0] in 'TFDR'))
         if bad:
             continue
         # difference statistics against the raw bits
@@ -843,6 +1126,20 @@ def run(ctx):
             pl['assoc_open'] = True
             pl['stream'] = 'assoc-in-force'
         plans.append(pl)
+    # (c) uncompressed subsets of different structure: delayed replications in front of the operator whose factors
+    #     differ between the subsets -- preferably so that the number of items is the same (the operator then sits at
+    #     the same flat position in every subset although different elements precede it)
+    nvary = 600 if quick else 8000
+    for k in range(nvary):
+        n = rng.choice([2, 2, 3, 3, 4])
+        comp = rng.random() < 0.08
+        proto, vmeta = g0.vary(n, comp)
+        pl = {'family': 'vary', 'n': n, 'comp': comp, 'stream': 'varying-structure', 'edition': rng.choice([4, 4, 3]),
+              'proto': proto, 'vmeta': vmeta, 'nmax': rng.choice([6, 12, 24, 40]), 'first_kind': KINDS[(k + ctx.seed) % 5],
+              'vary_n': rng.random() < 0.4}
+        if rng.random() < 0.3:
+            pl['steps'] = 1
+        plans.append(pl)
     chunk = 300
     total = 0
     for off in range(0, len(plans), chunk):
@@ -866,5 +1163,6 @@ def replay(ctx, path):
     c.valss = rep['values']
     c.info, c.family, c.ends225, c.base_len, c.stream, c.rnd, c.P0 = rep.get('info', []), rep.get('family', '?'), rep.get('ends225', False), 0, 'replay', '', 0
     c.assoc_open = False
+    c.vmeta = None
     n = run_chunk(ctx, drv, treq, [c])
     print('replay: evaluated %d message(s), violations so far %d, known findings %s' % (n, ctx.violations, ctx.known_hits))
